@@ -123,8 +123,10 @@ type AuthCall struct {
 type AuthAnswer struct {
 	Status int
 	Body   string
-	Reset  bool // drop the connection without answering
-	Cut    int  // > 0 (scripted IdP only): announce the whole body's Content-Length, send only this many bytes of it, then close
+	Reset  bool              // drop the connection without answering
+	Hang   bool              // accept the request and never answer (until the client gives up)
+	Header map[string]string // extra response headers (e.g. Retry-After)
+	Cut    int               // > 0 (scripted IdP only): announce the whole body's Content-Length, send only this many bytes of it, then close
 }
 
 // FakeAuth is a scripted sso-auth back channel.
@@ -156,6 +158,13 @@ func NewFakeAuth() *FakeAuth {
 		}
 		f.Calls = append(f.Calls, c)
 		f.mu.Unlock()
+		if ans.Hang {
+			select {
+			case <-r.Context().Done():
+			case <-time.After(90 * time.Second):
+			}
+			return
+		}
 		if ans.Reset {
 			if hj, ok := w.(http.Hijacker); ok {
 				conn, _, err := hj.Hijack()
@@ -171,6 +180,9 @@ func NewFakeAuth() *FakeAuth {
 					return
 				}
 			}
+		}
+		for k, v := range ans.Header {
+			w.Header().Set(k, v)
 		}
 		if c.Endpoint == "validate" {
 			// like the real authenticator, /validate answers with a status and NO body: the proxy never reads
@@ -215,14 +227,17 @@ type ProxyOpts struct {
 	CookieDomain  string
 	// InMemoryAuth: back-channel calls are answered inside the calling goroutine (no sockets), for
 	// harnesses that run whole requests as threads of the cooperative scheduler
-	InMemoryAuth    bool
-	Lifetime        time.Duration
-	Valid           time.Duration
-	Grace           time.Duration
-	GraceZero       bool // the grace period is switched off (SESSION_TTL_GRACEPERIOD=0s)
-	SignerKeyPEM    string
-	TemplateVars    map[string]string // nil = read the process environment like production
-	UpstreamTimeout time.Duration
+	InMemoryAuth bool
+	Lifetime     time.Duration
+	Valid        time.Duration
+	Grace        time.Duration
+	GraceZero    bool // the grace period is switched off (SESSION_TTL_GRACEPERIOD=0s)
+	// RealClientTimeouts: keep the back-channel client exactly as the package builds it (5 s total), for
+	// the scenario about an authenticator that never answers
+	RealClientTimeouts bool
+	SignerKeyPEM       string
+	TemplateVars       map[string]string // nil = read the process environment like production
+	UpstreamTimeout    time.Duration
 	// ProviderExternal / ProviderInternal, when set, point the proxy at a real authenticator instead
 	// of the scripted one (external = what browsers are sent to, internal = where back-channel calls go).
 	ProviderExternal string
@@ -283,6 +298,9 @@ func loadConfigFromEnv(env map[string]string) (proxy.Configuration, error) {
 // (YAML file) -> proxy.New -> logging handler.
 func NewProxyEnv(o ProxyOpts) (*ProxyEnv, error) {
 	proxyproviders.VerifRelaxClientTimeouts()
+	if o.RealClientTimeouts {
+		proxyproviders.VerifOriginalClient()
+	}
 	e := &ProxyEnv{Opts: o, Backends: map[string]*Backend{}, Secret: CookieSecret}
 	e.Auth = NewFakeAuth()
 	yaml := o.YAML
